@@ -5,9 +5,13 @@ import json, glob, os, sys
 here = os.path.dirname(os.path.dirname(os.path.abspath(__file__)))
 props = [json.loads(l)["id"] for l in open(os.path.join(here, "properties.jsonl"))]
 checks = []
+# only properties the lead has reviewed (check passes on the unchanged tree, theorems inspected) are claimed
+reviewed = open(os.path.join(here, "manifest.d", "_claimed.txt")).read().split()
 for f in sorted(glob.glob(os.path.join(here, "manifest.d", "C*.json"))):
     d = json.load(open(f))
     pid = d["property_id"]
+    if pid not in reviewed:
+        continue
     d.setdefault("quick_cmd", f"./check {pid} --tier quick")
     d.setdefault("thorough_cmd", f"./check {pid} --tier thorough")
     d.setdefault("evidence_file", f"/verif/evidence/{pid}.json")
